@@ -5,6 +5,7 @@ import (
 	"bytes"
 	"crypto/sha256"
 	"path"
+	"path/filepath"
 	"sort"
 	"fmt"
 	"io"
@@ -47,6 +48,10 @@ func oracleHook(o fsOpts, dir string) func(i int, s *h.Session, st *h.Step) {
 				msgs = oracleC15(hs, s, st)
 			case "C12":
 				msgs = oracleC12(hs, s, st)
+			case "C01":
+				msgs = oracleC01(i, dir, s, st)
+			case "C07":
+				msgs = oracleC07(i, dir, s, st)
 			case "C13":
 				msgs = oracleC13(hs, s, st)
 			}
@@ -565,6 +570,144 @@ func oracleC13(hs *hookState, s *h.Session, st *h.Step) []string {
 	}
 	if len(msgs) > 2 {
 		msgs = msgs[:2]
+	}
+	return msgs
+}
+
+func copyFile(dst, src string) error {
+	data, err := os.ReadFile(src)
+	if err != nil {
+		if os.IsNotExist(err) {
+			return nil
+		}
+		return err
+	}
+	return os.WriteFile(dst, data, 0o644)
+}
+
+// treeOf opens a second instance over copies of the drive and (optionally) the index, runs
+// Initialize and walks the tree through the public API.
+func treeOf(dir, tag string, e *h.Env, withIndex bool) ([]string, string) {
+	sub := filepath.Join(dir, tag)
+	os.MkdirAll(sub, 0o755)
+	defer os.RemoveAll(sub)
+	drive := filepath.Join(sub, "drive.tar")
+	db := filepath.Join(sub, "index.sqlite")
+	if err := copyFile(drive, e.Drive); err != nil {
+		return nil, err.Error()
+	}
+	if withIndex {
+		e.Close()
+		if err := copyFile(db, e.DBPath); err != nil {
+			return nil, err.Error()
+		}
+	}
+	e2, err := h.NewEnvAt(sub, drive, db, e.Cfg)
+	if err != nil {
+		return nil, "open: " + err.Error()
+	}
+	defer e2.Close()
+	s2 := h.NewSession(e2)
+	var lines []string
+	msg := ""
+	ok := s2.Guard(func() {
+		if _, err := e2.FS.Initialize("/", 0o777); err != nil {
+			msg = "Initialize: " + err.Error()
+			return
+		}
+		t, terr := s2.TreeLines()
+		if terr != nil {
+			msg = "walk: " + terr.Error()
+		}
+		lines = t
+	})
+	if !ok {
+		return nil, "did not return"
+	}
+	return lines, msg
+}
+
+func diffTrees(what string, live, other []string) string {
+	if len(live) != len(other) {
+		return fmt.Sprintf("%s shows %d entries, the running instance %d: %s", what, len(other), len(live), firstTreeDiff(other, live))
+	}
+	for i := range live {
+		if live[i] != other[i] {
+			return fmt.Sprintf("%s differs from the running instance: %s", what, firstTreeDiff(other, live))
+		}
+	}
+	return ""
+}
+
+// ---------------------------------------------------------------------------------------
+// C01: after every call, (a) a fresh instance over a copy of the existing index and (b) a
+// fresh instance that rebuilds the index from a copy of the tape show the tree and contents
+// the running instance shows.
+func oracleC01(i int, dir string, s *h.Session, st *h.Step) []string {
+	if st.Tree == nil || st.TreeE != "" {
+		if st.TreeE != "" {
+			return []string{"the running instance cannot be walked: " + st.TreeE}
+		}
+		return nil
+	}
+	var msgs []string
+	re, emsg := treeOf(dir, fmt.Sprintf("reopen%d", i), s.E, true)
+	if emsg != "" {
+		msgs = append(msgs, "reopening the existing index in a fresh instance failed: "+emsg)
+	} else if d := diffTrees("a fresh instance over the existing index", st.Tree, re); d != "" {
+		msgs = append(msgs, d)
+	}
+	rb, emsg := treeOf(dir, fmt.Sprintf("rebuild%d", i), s.E, false)
+	if emsg != "" {
+		msgs = append(msgs, "rebuilding the index from the tape failed: "+emsg)
+	} else if d := diffTrees("an index rebuilt from the tape", st.Tree, rb); d != "" {
+		msgs = append(msgs, d)
+	}
+	return msgs
+}
+
+// ---------------------------------------------------------------------------------------
+// C07: replaying the whole tape into the live index (no wipe) reports no error and shows the
+// same tree as a from-scratch rebuild; a second replay changes nothing.
+func oracleC07(i int, dir string, s *h.Session, st *h.Step) []string {
+	if st.Tree == nil || st.TreeE != "" {
+		return nil
+	}
+	e := s.E
+	sub := filepath.Join(dir, fmt.Sprintf("replay%d", i))
+	os.MkdirAll(sub, 0o755)
+	defer os.RemoveAll(sub)
+	drive := filepath.Join(sub, "drive.tar")
+	db := filepath.Join(sub, "index.sqlite")
+	copyFile(drive, e.Drive)
+	e.Close()
+	copyFile(db, e.DBPath)
+	e2, err := h.NewEnvAt(sub, drive, db, e.Cfg)
+	if err != nil {
+		return []string{"open: " + err.Error()}
+	}
+	defer e2.Close()
+	s2 := h.NewSession(e2)
+	var msgs []string
+	ok := s2.Guard(func() {
+		for pass := 1; pass <= 2; pass++ {
+			if err := h.Replay(e2, false); err != nil {
+				msgs = append(msgs, fmt.Sprintf("replaying the tape into the existing index (pass %d) failed: %v", pass, err))
+				return
+			}
+			t, terr := s2.TreeLines()
+			if terr != nil {
+				msgs = append(msgs, fmt.Sprintf("after replay pass %d the tree cannot be walked: %v", pass, terr))
+				return
+			}
+			if d := diffTrees(fmt.Sprintf("the index after replay pass %d", pass), st.Tree, t); d != "" {
+				msgs = append(msgs, d)
+				return
+			}
+		}
+	})
+	if !ok {
+		msgs = append(msgs, "replay did not return")
 	}
 	return msgs
 }
